@@ -22,7 +22,22 @@ What runs (every invocation, against the tree in VERIF_REPO):
   * CONDITIONAL FIT: after every fit, per ConditionalDistribution: template parameters before/after,
     per-interval parameters re-fitted independently on a deep copy of the *old* template, identity
     pattern of `distributions_per_interval` -> `condfit` model.
-  * deterministic entry points are evaluated twice and must agree (array_equal, NaN = NaN).
+  * deterministic entry points are evaluated twice and must agree (array_equal, NaN = NaN); for contours every
+    attribute of the object, for plots also the label / title / legend texts. The roots are hashed a third time
+    BETWEEN the two evaluations (a change the second evaluation undoes is still a change).
+  * besides models, caller arrays and contours the roots are: the caller's semantics dict, fit descriptions and
+    par_rename dict (`aux`), the description list a model was built from (`desc`), and virocon's own mutable
+    state outside of model objects - module globals, class attributes, default argument values (`global`,
+    see module_state()). An evaluation that changes any of them fails (caller_argument_unchanged,
+    model_description_unchanged, module_state_unchanged).
+  * input guises: float / int / list / view / strided / Fortran / non-positive / READ-ONLY arrays (numpy refuses
+    any in-place write: "assignment destination is read-only" from an op that was handed a read-only array is a
+    failure of caller_array_unchanged even when no value would have changed), tuples of tuples, 0-d arrays;
+    probabilities and conditioning values as list / tuple / int / read-only / scalar.
+  * custom models draw their families from ALL distribution classes (Weibull, LogNormal, Normal,
+    LogNormalNormFit, ExponentiatedWeibull, GeneralizedGamma, VonMises, a ScipyDistribution subclass) and all
+    three interval slicers; TransformedModel: pdf, cdf, empirical_cdf(sample=), marginal_icdf(random_state=),
+    seeded and unseeded draw_sample, conditional_cdf/icdf/sample, fit.
 """
 import copy
 import functools
@@ -73,6 +88,12 @@ def atom_token(o, _depth=0):
                           types.WrapperDescriptorType)):
             return b"B" + getattr(o, "__name__", repr(o)).encode()
         return type(o).__name__.encode() + b":" + repr(o).encode()
+    if type(o).__name__ == "_ArrayFunctionDispatcher" and (type(o).__module__ or "").startswith("numpy"):
+        # numpy's public functions (np.median, the default `reference` of PointsPerIntervalSlicer): library callables
+        return b"B" + (getattr(o, "__module__", "") or "").encode() + b"." + getattr(o, "__qualname__", repr(o)).encode()
+    if (type(o).__module__ or "").startswith("scipy.stats.") and hasattr(o, "_parse_args") and hasattr(o, "name"):
+        # scipy.stats distribution generators (sts.gamma, ...): library singletons a ScipyDistribution refers to
+        return b"S" + type(o).__module__.encode() + b"." + type(o).__qualname__.encode() + b":" + str(o.name).encode()
     if isinstance(o, types.FunctionType):
         if _depth > 6:
             return None
@@ -374,36 +395,114 @@ def _lin2(x, a, b):
 CUSTOM_DEPS = {"power3": _power3, "exp3": _exp3, "lin2": _lin2}
 
 
+def _u(rng, lo, hi):
+    return float(rng.uniform(lo, hi))
+
+
+def _uncond_params(rng, fam, first):
+    if fam == "Weibull":
+        return ({"alpha": _u(rng, 1.5, 3.0), "beta": _u(rng, 1.2, 2.2), "gamma": float(rng.choice([0.0, 0.5]))} if first else
+                {"alpha": _u(rng, 1, 3), "beta": _u(rng, 1.2, 2.5), "gamma": 0.0})
+    if fam == "LogNormal":
+        return {"mu": _u(rng, 0.5, 1.0 if first else 1.5), "sigma": _u(rng, 0.2, 0.5)}
+    if fam == "ExponentiatedWeibull":
+        return {"alpha": _u(rng, 0.8, 1.5), "beta": _u(rng, 1.0, 1.5), "delta": _u(rng, 1.5, 3.0)}
+    if fam == "GeneralizedGamma":
+        return {"m": _u(rng, 1.5, 2.5), "c": _u(rng, 1.1, 1.6), "lambda_": _u(rng, 0.6, 1.0)}
+    if fam == "ScipyGamma":
+        return {"a": _u(rng, 2.0, 3.0), "loc": 0.0, "scale": _u(rng, 1.0, 1.5)}
+    if fam == "Normal":
+        return {"mu": _u(rng, 4.0, 6.0), "sigma": _u(rng, 0.8, 1.2)}
+    if fam == "VonMises":
+        return {"kappa": _u(rng, 0.8, 2.0), "mu": _u(rng, 0.5, 2.0)}
+    raise KeyError(fam)
+
+
+def _cond_dim(rng, fam, cond):
+    """a conditional dimension: the template's family, its fixed parameters and its dependence functions"""
+    if fam == "LogNormal":
+        return {"family": fam, "cond": cond, "deps": {
+            "mu": ["power3", [_u(rng, 0.5, 1.2), _u(rng, 0.2, 0.8), _u(rng, 0.2, 0.6)]],
+            "sigma": ["exp3", [_u(rng, 0.03, 0.08), _u(rng, 0.1, 0.25), _u(rng, -0.4, -0.1)]]}}
+    if fam == "Weibull":
+        return {"family": fam, "cond": cond, "fixed": {"gamma": 0.0}, "deps": {
+            "alpha": ["lin2", [_u(rng, 1.5, 3.0), _u(rng, 0.2, 0.8)]],
+            "beta": ["power3", [_u(rng, 1.5, 3.0), _u(rng, 0.1, 0.5), _u(rng, 0.5, 1.0)]]}}
+    if fam == "Normal":
+        return {"family": fam, "cond": cond, "deps": {
+            "mu": ["lin2", [_u(rng, 2.5, 3.5), _u(rng, 0.8, 1.4)]],
+            "sigma": ["exp3", [_u(rng, 0.2, 0.4), _u(rng, 0.3, 0.6), _u(rng, -0.3, -0.1)]]}}
+    if fam == "LogNormalNormFit":
+        return {"family": fam, "cond": cond, "deps": {
+            "mu_norm": ["power3", [_u(rng, 1.5, 2.5), _u(rng, 0.7, 1.2), _u(rng, 0.6, 0.9)]],
+            "sigma_norm": ["exp3", [_u(rng, 0.15, 0.3), _u(rng, 0.4, 0.7), _u(rng, -0.3, -0.1)]]}}
+    if fam == "GeneralizedGamma":
+        return {"family": fam, "cond": cond, "fixed": {"c": 1.5}, "deps": {
+            "m": ["lin2", [_u(rng, 1.2, 1.8), _u(rng, 0.1, 0.3)]],
+            "lambda_": ["exp3", [_u(rng, 0.2, 0.4), _u(rng, 0.4, 0.7), _u(rng, -0.2, -0.05)]]}}
+    if fam == "ExponentiatedWeibull":
+        return {"family": fam, "cond": cond, "fixed": {"delta": 2.0}, "deps": {
+            "alpha": ["lin2", [_u(rng, 0.6, 1.0), _u(rng, 0.2, 0.4)]],
+            "beta": ["power3", [_u(rng, 0.9, 1.2), _u(rng, 0.1, 0.3), _u(rng, 0.4, 0.6)]]}}
+    if fam == "ScipyGamma":
+        return {"family": fam, "cond": cond, "fixed": {"loc": 0.0}, "deps": {
+            "a": ["lin2", [_u(rng, 1.8, 2.4), _u(rng, 0.2, 0.4)]],
+            "scale": ["exp3", [_u(rng, 0.4, 0.6), _u(rng, 0.4, 0.6), _u(rng, -0.2, -0.05)]]}}
+    raise KeyError(fam)
+
+
+FIRST_FAMILIES = ["Weibull", "Weibull", "ExponentiatedWeibull", "GeneralizedGamma", "LogNormal", "ScipyGamma"]
+UNCOND_FAMILIES = ["LogNormal", "Weibull", "VonMises", "Normal", "GeneralizedGamma"]
+COND_FAMILIES = ["LogNormal", "Weibull", "Normal", "LogNormalNormFit", "GeneralizedGamma", "ExponentiatedWeibull", "ScipyGamma"]
+
+
 def random_custom_spec(rng):
+    """2-D / 3-D models over all distribution families of virocon (Weibull, LogNormal, Normal, LogNormalNormFit,
+    ExponentiatedWeibull, GeneralizedGamma, VonMises, a ScipyDistribution subclass) and all three interval slicers"""
     n_dim = int(rng.choice([2, 3]))
-    dims = [{"family": "Weibull", "cond": None,
-             "params": {"alpha": float(rng.uniform(1.5, 3.0)), "beta": float(rng.uniform(1.2, 2.2)),
-                        "gamma": float(rng.choice([0.0, 0.5]))}}]
+    f0 = str(rng.choice(FIRST_FAMILIES))
+    dims = [{"family": f0, "cond": None, "params": _uncond_params(rng, f0, True)}]
     for i in range(1, n_dim):
         cond = None if (i == 2 and rng.integers(0, 3) == 0) else int(rng.integers(0, i))
-        fam = str(rng.choice(["LogNormal", "Weibull"]))
         if cond is None:
-            params = ({"mu": float(rng.uniform(0.5, 1.5)), "sigma": float(rng.uniform(0.2, 0.5))}
-                      if fam == "LogNormal" else
-                      {"alpha": float(rng.uniform(1, 3)), "beta": float(rng.uniform(1.2, 2.5)), "gamma": 0.0})
-            dims.append({"family": fam, "cond": None, "params": params})
-        elif fam == "LogNormal":
-            dims.append({"family": fam, "cond": cond, "deps": {
-                "mu": ["power3", [float(rng.uniform(0.5, 1.2)), float(rng.uniform(0.2, 0.8)), float(rng.uniform(0.2, 0.6))]],
-                "sigma": ["exp3", [float(rng.uniform(0.03, 0.08)), float(rng.uniform(0.1, 0.25)), float(rng.uniform(-0.4, -0.1))]]}})
+            fam = str(rng.choice(UNCOND_FAMILIES))
+            dims.append({"family": fam, "cond": None, "params": _uncond_params(rng, fam, False)})
         else:
-            dims.append({"family": fam, "cond": cond, "fixed": {"gamma": 0.0}, "deps": {
-                "alpha": ["lin2", [float(rng.uniform(1.5, 3.0)), float(rng.uniform(0.2, 0.8))]],
-                "beta": ["power3", [float(rng.uniform(1.5, 3.0)), float(rng.uniform(0.1, 0.5)), float(rng.uniform(0.5, 1.0))]]}})
-    return {"kind": "custom", "dims": dims, "n_int": int(rng.choice([3, 4, 5]))}
+            dims.append(_cond_dim(rng, str(rng.choice(COND_FAMILIES)), cond))
+    return {"kind": "custom", "dims": dims, "n_int": int(rng.choice([3, 4, 5])),
+            "slicer": str(rng.choice(["number", "number", "points", "width"])), "ppi": int(rng.choice([100, 150])),
+            "width": _u(rng, 0.6, 1.0)}
+
+
+class ScipyGammaDistribution(V.ScipyDistribution):
+    """a user-defined family the documented way: subclass ScipyDistribution and name the scipy distribution"""
+    scipy_dist_name = "gamma"
+
+
+def _families():
+    from virocon.distributions import LogNormalNormFitDistribution
+
+    return {"Weibull": V.WeibullDistribution, "LogNormal": V.LogNormalDistribution, "Normal": V.NormalDistribution,
+            "LogNormalNormFit": LogNormalNormFitDistribution, "ExponentiatedWeibull": V.ExponentiatedWeibullDistribution,
+            "GeneralizedGamma": V.GeneralizedGammaDistribution, "VonMises": V.VonMisesDistribution,
+            "ScipyGamma": ScipyGammaDistribution}
+
+
+def _slicer(spec):
+    kind = spec.get("slicer", "number")
+    if kind == "points":
+        return V.PointsPerIntervalSlicer(int(spec.get("ppi", 100)), min_n_points=10)
+    if kind == "width":
+        return V.WidthOfIntervalSlicer(float(spec.get("width", 0.8)), min_n_points=10)
+    return V.NumberOfIntervalsSlicer(spec["n_int"], min_n_points=10)
 
 
 def build_custom(spec):
-    fam = {"Weibull": V.WeibullDistribution, "LogNormal": V.LogNormalDistribution}
+    fam = _families()
     descs = []
     for d in spec["dims"]:
         cls = fam[d["family"]]
-        sl = V.NumberOfIntervalsSlicer(spec["n_int"], min_n_points=10)
+        sl = _slicer(spec)
         if d["cond"] is None:
             descs.append({"distribution": cls(**d["params"]), "intervals": sl})
         else:
@@ -417,6 +516,60 @@ def build_custom(spec):
             descs.append({"distribution": cls(**kw), "conditional_on": d["cond"], "parameters": pars,
                           "intervals": sl})
     return V.GlobalHierarchicalModel(descs), descs
+
+
+_MUTABLE_BUILTINS = (dict, list, set, bytearray, np.ndarray)
+
+
+def module_state():
+    """{qualified name: object}: the mutable state virocon keeps OUTSIDE of model objects - module globals, class
+    attributes and default argument values (e.g. the `par_rename={}` default of plot_dependence_functions) that are
+    dicts/lists/sets/arrays or instances of virocon classes. No evaluation may write to it (hidden state shared by all
+    calls and all models); discovered afresh for every op sequence, so state added to the library is picked up."""
+    import sys
+
+    out = {}
+
+    def interesting(v):
+        if isinstance(v, _MUTABLE_BUILTINS):
+            return True
+        mod = getattr(type(v), "__module__", "") or ""
+        return (mod == "virocon" or mod.startswith("virocon.")) and atom_token(v) is None
+
+    def defaults(qn, f):
+        vals = list(f.__defaults__ or ()) + list((f.__kwdefaults__ or {}).values())
+        for i, d in enumerate(vals):
+            if interesting(d):
+                out["%s.<default %d>" % (qn, i)] = d
+
+    for mn in sorted(sys.modules):
+        mod = sys.modules[mn]
+        if mod is None or not (mn == "virocon" or mn.startswith("virocon.")):
+            continue
+        for k, v in list(vars(mod).items()):
+            if k.startswith("__"):
+                continue
+            if isinstance(v, types.FunctionType):
+                if v.__module__ == mn:
+                    defaults(mn + "." + k, v)
+            elif isinstance(v, type):
+                if v.__module__ != mn:
+                    continue
+                for kk, vv in list(vars(v).items()):
+                    f = vv.__func__ if isinstance(vv, (staticmethod, classmethod)) else vv
+                    if isinstance(f, types.FunctionType):
+                        defaults("%s.%s.%s" % (mn, k, kk), f)
+                    elif isinstance(f, property):
+                        for acc in (f.fget, f.fset):
+                            if isinstance(acc, types.FunctionType):
+                                defaults("%s.%s.%s" % (mn, k, kk), acc)
+                    elif not kk.startswith("__") and kk != "_abc_impl" and interesting(f):
+                        out["%s.%s.%s" % (mn, k, kk)] = f
+            elif isinstance(v, types.ModuleType):
+                continue
+            elif interesting(v):
+                out[mn + "." + k] = v
+    return out
 
 
 class LiveModel:
@@ -491,9 +644,34 @@ def same_result(a, b):
             return bool(np.array_equal(a, b))
     if isinstance(a, (list, tuple)) and isinstance(b, (list, tuple)):
         return len(a) == len(b) and all(same_result(x, y) for x, y in zip(a, b))
+    if isinstance(a, dict) and isinstance(b, dict):
+        return list(a.keys()) == list(b.keys()) and all(same_result(a[k], b[k]) for k in a)
     if isinstance(a, float) and isinstance(b, float):
         return a == b or (a != a and b != b)
-    return a == b
+    try:
+        return bool(a == b)
+    except Exception:  # noqa: BLE001
+        return a is b
+
+
+def contour_state(c):
+    """everything a contour object carries besides the reference to its model (compared between two evaluations)"""
+    d = getattr(c, "__dict__", None)
+    if not isinstance(d, dict):
+        return c
+    out = {}
+    for k in sorted(d):
+        v = d[k]
+        if k == "model":
+            out[k] = id(v)
+        elif isinstance(v, (np.ndarray, list, tuple, dict, float, int, str, bool, type(None), np.generic)):
+            out[k] = v
+        elif hasattr(v, "__dict__"):
+            out[k] = {kk: vv for kk, vv in sorted(vars(v).items())
+                      if isinstance(vv, (np.ndarray, list, tuple, float, int, str, bool, type(None), np.generic))}
+        else:
+            out[k] = repr(type(v))
+    return out
 
 
 def axes_data(axs):
@@ -514,6 +692,17 @@ def axes_data(axs):
                 rec.append(np.array([p.get_x(), p.get_height()], dtype=float))
             except Exception:  # noqa: BLE001
                 pass
+        # the texts handed to matplotlib (axis labels, title, legend entries): part of what a plot call "returns";
+        # a plot function that edits the caller's semantics in place shows up here on the second evaluation
+        try:
+            leg = ax.get_legend()
+            texts = [ax.get_xlabel(), ax.get_ylabel(), ax.get_title()]
+            texts += [t.get_text() for t in leg.get_texts()] if leg is not None else []
+            if leg is not None and leg.get_title() is not None:
+                texts.append(leg.get_title().get_text())
+            rec.append(("texts",) + tuple(str(t) for t in texts))
+        except Exception:  # noqa: BLE001
+            pass
         return rec
 
     def walk(x):
@@ -539,8 +728,10 @@ class World:
         self.rng = np.random.default_rng([case["seed"], case["idx"] % (2**31), 7])
         self.models = []
         self.arrays = {}   # name -> caller-owned array / list
+        self.consts = {}   # name -> caller-owned immutable argument (tuples of floats): cannot change, not a root
         self.contours = []  # dict(obj, m, kind)
         self.tmp = None
+        self.gstate = module_state()
         for i, spec in enumerate(case["models"]):
             self.add_model(spec)
 
@@ -553,16 +744,51 @@ class World:
         s = base_sample(lm, n, seed)
         self.arrays["S%d" % i] = s
         self.arrays["D%d" % i] = base_sample(lm, int(spec.get("nfit", 500)), seed + 1000)
+        if lm.is_tm:
+            # the same sample in the variable space of the transformed model
+            self.arrays["T%d" % i] = np.array(lm.obj.inverse(s))
         return i
+
+    def parr(self, rows, pvar="array"):
+        """probabilities in different guises (registered as caller arguments)"""
+        base = np.linspace(0.02, 0.98, rows)
+        if pvar == "array":
+            return self.arrays.setdefault("P%d" % rows, base)
+        key = "P%d:%s" % (rows, pvar)
+        if pvar == "tuple":
+            return self.consts.setdefault(key, tuple(float(v) for v in base))
+        if key in self.arrays:
+            return self.arrays[key]
+        if pvar == "list":
+            a = [float(v) for v in base]
+        elif pvar == "readonly":
+            a = base.copy()
+            a.setflags(write=False)
+        elif pvar == "0d":
+            a = np.array(float(base[rows // 2]))
+        else:
+            raise KeyError(pvar)
+        self.arrays[key] = a
+        return a
 
     # caller arrays in different guises; all registered as roots
     def arr(self, name, variant, rows):
         key = "%s:%s:%d" % (name, variant, rows)
         if key in self.arrays:
             return self.arrays[key]
+        if key in self.consts:
+            return self.consts[key]
         base = self.arrays[name]
         x = base[:rows]
-        if variant == "float":
+        if variant == "tuple":
+            a = tuple(tuple(float(v) for v in row) for row in x)
+            self.consts[key] = a
+            return a
+        if variant == "readonly":
+            # any in-place write into the caller's data raises ("assignment destination is read-only")
+            a = np.array(x)
+            a.setflags(write=False)
+        elif variant == "float":
             a = np.array(x)
         elif variant == "view":
             a = base[:rows]            # a view of the caller's big array
@@ -590,10 +816,14 @@ class World:
             r.append(("model", "M%d" % i, lm.obj))
             for nm, o in lm.aux:
                 r.append(("aux", "M%d.%s" % (i, nm), o))
+            # the description list the model was built from stays with the caller (it shares the distribution objects
+            # with the model): no evaluation may change it
+            r.append(("desc", "M%d.descs" % i, lm.descs))
         for nm, a in self.arrays.items():
             r.append(("array", nm, a))
         for j, c in enumerate(self.contours):
             r.append(("contour", "C%d" % j, c["obj"]))
+        r.append(("global", "virocon.<module state>", self.gstate))
         return r
 
     def tmpdir(self):
@@ -612,6 +842,7 @@ class World:
 # op -> (model op kind, deterministic?)
 PURE_KIND = {
     "pdf": "eval", "cdf": "eval", "icdf": "eval", "cond": "eval", "tcond": "eval", "marginal": "eval", "sample": "eval",
+    "tm": "eval", "misc": "eval",
     "contour": "contour", "design": "design", "plot": "plot", "save": "save", "getter": "getter",
 }
 
@@ -643,7 +874,8 @@ def exec_op(w, op):
     elif name == "icdf":
         # distribution-level icdf / cdf / pdf with given (what the contours call)
         s = w.arr("S%d" % op["m"], "float", op["rows"])
-        p = w.arrays.setdefault("P%d" % op["rows"], np.linspace(0.02, 0.98, op["rows"]))
+        pvar, gvar = op.get("pvar", "array"), op.get("gvar", "float")
+        p = w.parr(op["rows"], pvar)
         dim = op["dim"] % lm.n_dim
         dist = lm.ghm.distributions[dim]
         c = lm.ghm.conditional_on[dim]
@@ -653,11 +885,33 @@ def exec_op(w, op):
         if c is None:
             out["call"] = lambda: (dist.icdf(p), dist.cdf(s[:, dim]), dist.pdf(s[:, dim]))
         else:
-            g = s[:, c]
+            # the conditioning values as float column view / int array / list / read-only array / one python float
+            gkey = "S%d:float:%d:given%d:%s" % (op["m"], op["rows"], c, gvar)
+            if gvar == "float":
+                g = s[:, c]
+            elif gvar == "scalar":
+                g = float(s[0, c])
+            elif gkey in w.arrays:
+                g = w.arrays[gkey]
+            else:
+                if gvar == "int":
+                    g = np.ceil(s[:, c]).astype(int)
+                elif gvar == "list":
+                    g = [float(v) for v in s[:, c]]
+                elif gvar == "readonly":
+                    g = np.array(s[:, c])
+                    g.setflags(write=False)
+                else:
+                    raise KeyError(gvar)
+                w.arrays[gkey] = g
+            if gvar not in ("float", "scalar"):
+                out["args"] = [p, s, g]
             out["call"] = lambda: (dist.icdf(p, given=g), dist.cdf(s[:, dim], given=g), dist.pdf(s[:, dim], given=g))
+        if pvar != "array" or gvar != "float":
+            out["entry"] += "[p=%s,given=%s]" % (pvar, gvar if c is not None else "-")
     elif name == "cond":
-        s = w.arr("S%d" % op["m"], op["variant"] if op["variant"] in ("float", "view", "fortran") else "float", op["rows"])
-        p = w.arrays.setdefault("P%d" % op["rows"], np.linspace(0.02, 0.98, op["rows"]))
+        s = w.arr("S%d" % op["m"], op["variant"] if op["variant"] in ("float", "view", "fortran", "readonly") else "float", op["rows"])
+        p = w.parr(op["rows"], op.get("pvar", "array") if op.get("pvar") in ("array", "readonly") else "array")
         dim = op["dim"] % lm.n_dim
         out["args"] = [p, s]
         out["entry"] = "GlobalHierarchicalModel.conditional_icdf"
@@ -682,20 +936,115 @@ def exec_op(w, op):
         unc = [i for i in range(lm.n_dim) if lm.ghm.conditional_on[i] is None]
         dim = unc[op["dim"] % len(unc)]
         s = w.arr("S%d" % op["m"], op["variant"], op["rows"])
-        col = w.arrays.setdefault("S%d:%s:%d:col%d" % (op["m"], op["variant"], op["rows"], dim),
-                                  [r[dim] for r in s] if isinstance(s, list) else s[:, dim])
-        p = w.arrays.setdefault("P%d" % op["rows"], np.linspace(0.02, 0.98, op["rows"]))
+        ckey = "S%d:%s:%d:col%d" % (op["m"], op["variant"], op["rows"], dim)
+        if isinstance(s, tuple):
+            col = w.consts.setdefault(ckey, tuple(r[dim] for r in s))
+        else:
+            col = w.arrays.setdefault(ckey, [r[dim] for r in s] if isinstance(s, list) else s[:, dim])
+        p = w.parr(op["rows"], op.get("pvar", "array"))
         out["args"] = [col, p]
         out["entry"] = "GlobalHierarchicalModel.marginal_" + op["which"]
         f = getattr(m, "marginal_" + op["which"])
         out["call"] = (lambda: f(p, dim)) if op["which"] == "icdf" else (lambda: f(col, dim))
     elif name == "sample":
         out["entry"] = type(m).__name__ + ".draw_sample"
-        if lm.is_tm:
-            out["det"] = False   # TransformedModel.draw_sample has no seed: Monte-Carlo by documentation
+        if lm.is_tm and not op.get("seeded"):
+            out["det"] = False   # no random_state given: Monte-Carlo by documentation
             out["call"] = lambda: m.draw_sample(op["n"])
+        elif lm.is_tm:
+            # TransformedModel.draw_sample(n, random_state=) passes the seed on to the underlying model: repeatable
+            out["entry"] += "[random_state]"
+            out["call"] = lambda: m.draw_sample(op["n"], random_state=op["rs"])
         else:
             out["call"] = lambda: m.draw_sample(op["n"], random_state=op["rs"])
+    elif name == "tm":
+        # the remaining evaluation entry points of TransformedModel, on points of ITS variable space
+        which = op["which"]
+        if not lm.is_tm:
+            raise KeyError("not a TransformedModel")
+        t = w.arr("T%d" % op["m"], op.get("variant", "float"), op["rows"])
+        out["entry"] = "TransformedModel." + which
+        if which == "cdf":
+            x = w.arr("T%d" % op["m"], op.get("variant", "float"), 1)
+            out["args"] = [x]
+            out["call"] = lambda: m.cdf(x)           # nquad over the pdf (time-boxed like the other cdf)
+        elif which == "empirical_cdf":
+            big = w.arrays["T%d" % op["m"]]
+            out["args"] = [t, big]
+            out["call"] = lambda: m.empirical_cdf(t, sample=big)   # with a supplied sample: no cache involved
+        elif which == "marginal_icdf":
+            p = w.parr(op["rows"], op.get("pvar", "array"))
+            out["args"] = [p]
+            out["entry"] += "[random_state]"
+            out["call"] = lambda: m.marginal_icdf(p, op["dim"] % lm.n_dim, precision_factor=0.05, random_state=op["rs"])
+        else:
+            raise KeyError(which)
+    elif name == "misc":
+        which = op["which"]
+        out["entry"] = which
+        if which == "sort_points_to_form_continuous_line":
+            # caller-owned x / y arrays (a noisy closed curve, shuffled), both search modes
+            out["target"] = None
+            key = "XY%d:%d" % (op["n"], op["rs"])
+            if key + ":x" not in w.arrays:
+                r = np.random.default_rng(op["rs"])
+                ang = r.permutation(np.linspace(0, 2 * np.pi, op["n"], endpoint=False))
+                w.arrays[key + ":x"] = 3 + 2 * np.cos(ang) + 0.01 * r.normal(size=op["n"])
+                w.arrays[key + ":y"] = 5 + 3 * np.sin(ang) + 0.01 * r.normal(size=op["n"])
+                if op.get("variant") == "readonly":
+                    w.arrays[key + ":x"].setflags(write=False)
+                    w.arrays[key + ":y"].setflags(write=False)
+            x, y = w.arrays[key + ":x"], w.arrays[key + ":y"]
+            out["args"] = [x, y]
+            out["call"] = lambda: V.sort_points_to_form_continuous_line(x, y, search_for_optimal_start=bool(op["opt"]))
+        elif which == "calculate_alpha":
+            out["target"] = None
+            out["call"] = lambda: V.calculate_alpha(op["dur"], op["rp"])
+        elif which == "conditional_sample":
+            # MultivariateModel.conditional_sample called directly (rejection sampling on the model's pdf), seeded
+            given = w.arrays.setdefault("CSG%d:%d" % (op["m"], op["dim"] % lm.n_dim),
+                                        np.array([2.0 + 0.5 * j for j in range(lm.n_dim - 1)]))
+            out["args"] = [given]
+            out["entry"] = type(m).__name__ + ".conditional_sample[random_state]"
+            out["call"] = lambda: m.conditional_sample(op["n"], op["dim"] % lm.n_dim, given, random_state=op["rs"])
+        elif which == "Distribution.draw_sample":
+            dim = op["dim"] % lm.n_dim
+            dist = lm.ghm.distributions[dim]
+            c = lm.ghm.conditional_on[dim]
+            out["target"] = lm.ghm
+            if c is None:
+                out["call"] = lambda: dist.draw_sample(op["n"], random_state=op["rs"])
+            else:
+                sc = w.arr("S%d" % op["m"], "float", op["n"])
+                g = w.arrays.setdefault("S%d:float:%d:given%d:copy" % (op["m"], op["n"], c), np.array(sc[:, c]))
+                out["args"] = [g]
+                out["entry"] = "ConditionalDistribution.draw_sample"
+                out["call"] = lambda: dist.draw_sample(len(g), g, random_state=op["rs"])
+        elif which == "DependenceFunction.__call__":
+            deps = [(d, nm, f) for d, cd in cond_templates(lm.ghm) for nm, f in cd.conditional_parameters.items()]
+            if not deps:
+                raise KeyError("no dependence function")
+            d, nm, f = deps[op["dim"] % len(deps)]
+            sc = w.arr("S%d" % op["m"], op.get("variant", "float"), op["n"])
+            xkey = "S%d:%s:%d:col0" % (op["m"], op.get("variant", "float"), op["n"])
+            x = w.arrays.setdefault(xkey, [r[0] for r in sc] if isinstance(sc, list) else sc[:, 0])
+            out["args"] = [x]
+            out["target"] = lm.ghm
+            out["call"] = lambda: f(x)
+        elif which == "cell_averaged_joint_pdf":
+            cs = [c for c in w.contours if c["kind"] == "HighestDensityContour"]
+            if not cs:
+                raise KeyError("no highest density contour")
+            co = cs[-1]["obj"]
+            nd = w.models[cs[-1]["m"]].n_dim
+            coords = w.arrays.setdefault("cellcoords%d:%d" % (cs[-1]["m"], op["n"]),
+                                         [np.linspace(0.5, 6.0 + d, op["n"] + d) for d in range(nd)])
+            out["args"] = [coords]
+            out["target"] = co
+            out["entry"] = "HighestDensityContour.cell_averaged_joint_pdf"
+            out["call"] = lambda: co.cell_averaged_joint_pdf(coords)
+        else:
+            raise KeyError(which)
     elif name == "contour":
         kind = op["kind"]
         s = w.arr("S%d" % op["m"], op["variant"], op["rows"])
@@ -710,8 +1059,39 @@ def exec_op(w, op):
             limits = w.arrays.setdefault("limits%d" % op["m"], [(float(op["lo"]), float(big[:, d].max() * 1.6)) for d in range(lm.n_dim)])
             ncell = 24 if lm.n_dim == 2 else 10
             deltas = w.arrays.setdefault("deltas%d" % op["m"], [(hi - lo) / ncell for lo, hi in limits])
-            out["args"] = [limits, deltas]
-            out["call"] = lambda: V.HighestDensityContour(m, alpha, limits=limits, deltas=deltas)
+            grid = op.get("grid", "explicit")
+            if grid == "explicit":
+                out["args"] = [limits, deltas]
+                out["call"] = lambda: V.HighestDensityContour(m, alpha, limits=limits, deltas=deltas)
+            elif grid == "array":
+                # limits / deltas as caller-owned ndarrays
+                lim_a = w.arrays.setdefault("limits%d:array" % op["m"], np.array(limits, dtype=float))
+                del_a = w.arrays.setdefault("deltas%d:array" % op["m"], np.array(deltas, dtype=float))
+                out["args"] = [lim_a, del_a]
+                out["call"] = lambda: V.HighestDensityContour(m, alpha, limits=lim_a, deltas=del_a)
+            elif grid == "scalar":
+                sc = float(max(deltas))
+                out["args"] = [limits]
+                out["call"] = lambda: V.HighestDensityContour(m, alpha, limits=limits, deltas=sc)
+            elif grid == "default_limits":
+                # limits=None: derived from marginal_icdf (Monte-Carlo for conditional dimensions), one scalar cell size
+                sc = float(max(deltas))
+                out["det"] = all(c is None for c in lm.ghm.conditional_on)
+                out["call"] = lambda: V.HighestDensityContour(m, alpha, deltas=sc)
+            elif grid == "default_deltas":
+                if lm.n_dim != 2:
+                    raise KeyError("default cell size: 400 cells per dimension, 2-D only")
+                out["args"] = [limits]
+                out["call"] = lambda: V.HighestDensityContour(m, alpha, limits=limits)
+            elif grid == "default":
+                if lm.n_dim != 2:
+                    raise KeyError("default grid: 400 cells per dimension, 2-D only")
+                out["det"] = all(c is None for c in lm.ghm.conditional_on)
+                out["call"] = lambda: V.HighestDensityContour(m, alpha)
+            else:
+                raise KeyError(grid)
+            if grid != "explicit":
+                out["entry"] = kind + "[grid=%s]" % grid
         else:
             cls = getattr(V, kind)
             out["args"] = [s]
@@ -770,15 +1150,46 @@ def exec_op(w, op):
             out["args"] = [s]
             sem = w.models[c["m"]].semantics if op.get("sem") else None
 
+            dc = op["dc"] or None
+            if dc in ("array", "list"):
+                # precomputed design conditions handed in as the caller's array (the documented second form)
+                if isinstance(co.coordinates, list):
+                    raise KeyError("multi-part contour")
+                ck_ = "dc%d:%s:%d" % (op["c"] % len(w.contours), dc, op["swap"])
+                if ck_ not in w.arrays:
+                    a = np.array(V.calculate_design_conditions(co, swap_axis=op["swap"]))
+                    w.arrays[ck_] = a
+                dc = w.arrays[ck_]
+                out["args"] = [s, dc]
+                out["entry"] = fn + "[design_conditions=array]"
+            use_ax = bool(op.get("ax"))
+
             def call():
-                r = V.plot_2D_contour(co, sample=s, design_conditions=op["dc"] or None, semantics=sem,
-                                      swap_axis=op["swap"])
+                ax = plt.subplots()[1] if use_ax else None
+                r = V.plot_2D_contour(co, sample=s, design_conditions=dc, semantics=sem,
+                                      swap_axis=op["swap"], ax=ax)
                 d = axes_data(r[0] if isinstance(r, tuple) else r)
+                if isinstance(r, tuple):
+                    d.append(np.array(r[1], dtype=float))   # the returned design conditions
                 plt.close("all")
                 return d
         elif fn == "plot_dependence_functions":
+            pr = op.get("pr")
+            kw = {}
+            if pr:
+                # a caller-owned par_rename dict (the default is a dict shared by all calls: see module_state())
+                if not any(nm == "par_rename" for nm, _ in lm.aux):
+                    names = [nm for _, cd in cond_templates(lm.ghm) for nm in cd.conditional_parameters]
+                    lm.aux.append(("par_rename", {} if pr == "empty" else {nm: "$" + nm + "$" for nm in names[:1]}))
+                kw["par_rename"] = [o for nm, o in lm.aux if nm == "par_rename"][0]
+                out["entry"] = fn + "[par_rename]"
+            n_ax = sum(len(cd.conditional_parameters) for _, cd in cond_templates(lm.ghm))
+            use_ax = bool(op.get("ax"))
+
             def call():
-                r = V.plot_dependence_functions(m, semantics=sem)
+                if use_ax:
+                    kw["axes"] = [plt.subplots()[1] for _ in range(n_ax)]
+                r = V.plot_dependence_functions(m, semantics=sem, **kw)
                 d = axes_data(r)
                 plt.close("all")
                 return d
@@ -786,27 +1197,51 @@ def exec_op(w, op):
             s = w.arr("S%d" % op["m"], op["variant"], op["rows"])
             out["args"] = [s]
             out["det"] = all(c is None for c in lm.ghm.conditional_on)  # conditional dims: Monte-Carlo marginal_icdf
+            use_ax = bool(op.get("ax"))
 
             def call():
-                r = V.plot_marginal_quantiles(m, s, semantics=sem)
+                axes = [plt.subplots()[1] for _ in range(lm.n_dim)] if use_ax else None
+                r = V.plot_marginal_quantiles(m, s, semantics=sem, axes=axes)
                 d = axes_data(r)
                 plt.close("all")
                 return d
         elif fn == "plot_2D_isodensity":
             s = w.arr("S%d" % op["m"], op["variant"], op["rows"])
             out["args"] = [s]
+            kw = {}
+            opt = op.get("iso")
+            if opt:
+                # limits / levels as the caller's lists or arrays
+                big = np.asarray(w.arrays["S%d" % op["m"]], dtype=float)
+                lims = [(0.0, float(big[:, d].max() * 1.2)) for d in range(2)]
+                lv = [1e-3, 1e-2, 1e-1]
+                if opt == "array":
+                    kw["limits"] = w.arrays.setdefault("isolimits%d:array" % op["m"], np.array(lims))
+                    kw["levels"] = w.arrays.setdefault("isolevels:array", np.array(lv))
+                elif opt == "list":
+                    kw["limits"] = w.arrays.setdefault("isolimits%d:list" % op["m"], [list(t) for t in lims])
+                    kw["levels"] = w.arrays.setdefault("isolevels:list", list(lv))
+                else:   # limits only
+                    kw["limits"] = w.arrays.setdefault("isolimits%d:list" % op["m"], [list(t) for t in lims])
+                out["args"] = [s] + list(kw.values())
+                out["entry"] = fn + "[limits/levels=%s]" % opt
+            use_ax = bool(op.get("ax"))
 
             def call():
-                r = V.plot_2D_isodensity(m, s, semantics=sem, swap_axis=op["swap"], n_grid_steps=40)
+                ax = plt.subplots()[1] if use_ax else None
+                r = V.plot_2D_isodensity(m, s, semantics=sem, swap_axis=op["swap"], n_grid_steps=40, ax=ax, **kw)
                 d = axes_data(r)
                 plt.close("all")
                 return d
         else:  # plot_histograms_of_interval_distributions: needs the sample the model was fitted to
             s = lm.fitted_with if lm.fitted_with is not None else w.arrays["D%d" % op["m"]]
             out["args"] = [s]
+            plot_pdf = not op.get("nopdf")
+            if not plot_pdf:
+                out["entry"] = fn + "[plot_pdf=False]"
 
             def call():
-                r = V.plot_histograms_of_interval_distributions(m, s, semantics=sem)
+                r = V.plot_histograms_of_interval_distributions(m, s, semantics=sem, plot_pdf=plot_pdf)
                 d = axes_data(r[1])
                 plt.close("all")
                 return d
@@ -817,6 +1252,12 @@ def exec_op(w, op):
             data = w.arrays.setdefault("D%d:list" % op["m"], [[float(v) for v in r] for r in data])
         elif op["variant"] == "fortran":
             data = w.arrays.setdefault("D%d:fortran" % op["m"], np.asfortranarray(data))
+        elif op["variant"] == "readonly":
+            if "D%d:readonly" % op["m"] not in w.arrays:
+                ro = np.array(data)
+                ro.setflags(write=False)
+                w.arrays["D%d:readonly" % op["m"]] = ro
+            data = w.arrays["D%d:readonly" % op["m"]]
         if lm.is_tm:
             data = w.arrays.setdefault("D%d:tz" % op["m"], lm.obj.inverse(np.asarray(w.arrays["D%d" % op["m"]])))
         out["args"] = [data]
@@ -921,6 +1362,7 @@ class _Timeout(Exception):
 
 
 OP_BUDGET = 20.0   # seconds per call; an evaluation that is interrupted must be pure as well
+CDF_BUDGET = 3.0   # nquad-based cdf evaluations (repeated only when the first one took < 1.5 s)
 
 
 def _alarm(signum, frame):
@@ -996,19 +1438,38 @@ def run_sequence(case):
             det_bad = None
             t_op = time.time()
             try:
-                result = timed_call(ex["call"], 4.0 if op["op"] == "cdf" else OP_BUDGET)
+                is_cdf = op["op"] == "cdf" or (op["op"] == "tm" and op.get("which") == "cdf")
+                result = timed_call(ex["call"], CDF_BUDGET if is_cdf else OP_BUDGET)
             except Exception as e:  # noqa: BLE001
                 exc = type(e).__name__ + ": " + str(e)[:120]
+            ro_write = None
+            if exc is not None and ("destination is read-only" in exc or "output array is read-only" in exc):
+                # numpy refused an in-place write; with a read-only array among the caller's arguments this is an attempted
+                # write into the caller's data (fresh arrays are writeable)
+                if any(isinstance(a, np.ndarray) and not a.flags.writeable for a in ex["args"]):
+                    ro_write = exc
             repeated = False
-            if exc is None and ex["det"] and not (op["op"] == "cdf" and time.time() - t_op > 1.5):
+            hashes_mid = None
+            if exc is None and ex["det"] and not (is_cdf and time.time() - t_op > 1.5):
                 repeated = True
+                # the state after the FIRST evaluation: a change that the second evaluation happens to undo (reversing a
+                # list in place, toggling a flag) must not hide between the two snapshots
+                hashes_mid = [deep_hash(o) for o in root_objs]
                 try:
                     again = timed_call(ex["call"], OP_BUDGET)
                     r1 = result.coordinates if ex.get("post") == "contour" else result
                     r2 = again.coordinates if ex.get("post") == "contour" else again
                     if not same_result(r1, r2):
                         det_bad = "second evaluation differs from the first"
-                    elif "m" in op and op["op"] in ("pdf", "icdf", "cond", "marginal", "sample", "tcond") and time.time() - t_op < 4.0:
+                    elif ex.get("post") == "contour":
+                        # not only the coordinates: every attribute of the contour object (beta, sphere points, cell
+                        # centres, fm, limits, deltas, stored sample ...) has to be the same on the second computation
+                        s1, s2 = contour_state(result), contour_state(again)
+                        diff = ([k for k in s1 if k not in s2 or not same_result(s1[k], s2[k])] + [k for k in s2 if k not in s1]
+                                if isinstance(s1, dict) and isinstance(s2, dict) else [])
+                        if diff:
+                            det_bad = "second computation of the contour differs from the first in attribute(s) %s" % diff[:4]
+                    elif "m" in op and op["op"] in ("pdf", "icdf", "cond", "marginal", "sample", "tcond", "tm", "misc") and time.time() - t_op < 4.0:
                         memo.append({"step": step, "m": op["m"], "entry": ex["entry"], "call": ex["call"], "first": r1, "valid": True})
                 except Exception as e:  # noqa: BLE001
                     det_bad = "second evaluation raised %s although the first succeeded" % type(e).__name__
@@ -1029,6 +1490,10 @@ def run_sequence(case):
             n_before, writes, allocs = heap.scan(root_objs + [o for _, _, o in w.roots()])
             hashes_after = [deep_hash(o) for o in root_objs]
             changed = [a != b for a, b in zip(hashes, hashes_after)]
+            undone = []
+            if hashes_mid is not None:
+                undone = [a != m and a == b for a, m, b in zip(hashes, hashes_mid, hashes_after)]
+                changed = [c or u for c, u in zip(changed, undone)]
             # ---- model line
             kind = "fit" if op["op"] == "fit" else PURE_KIND[op["op"]]
             tgt = heap.ids.get(id(ex["target"]), 0) if ex["target"] is not None else 0
@@ -1055,6 +1520,8 @@ def run_sequence(case):
                 "line": " ".join(line), "det": repeated, "det_bad": det_bad,
                 "target_root": None, "dt": round(dt_op, 4),
                 "written_desc": [describe_obj(heap.objs[i]) for i, _ in writes[:6]],
+                "ro_write": ro_write, "undone": [nm for (k, nm, _), u in zip(roots, undone) if u],
+                "readonly_args": sum(1 for a in ex["args"] if isinstance(a, np.ndarray) and not a.flags.writeable),
             }
             if op["op"] == "fit":
                 rec["target_root"] = [nm for k, nm, o in roots if o is ex["target"]][0]
@@ -1103,7 +1570,7 @@ def random_models(rng):
         if j == 1 and rng.integers(0, 2) == 0 and specs[0]["kind"] == "getter":
             # a second model from the SAME getter: the sharing scenario of the property
             specs.append(dict(specs[0], jit=float(rng.choice([1.0, 0.9, 1.1]))))
-        elif r < 6:
+        elif r < 5:
             specs.append({"kind": "getter", "k": int(rng.integers(0, 6)), "jit": float(rng.choice([1.0, 0.95, 1.05]))})
         elif r < 7:
             specs.append({"kind": "getter_tm", "k": int(rng.choice([4, 5])), "jit": 1.0})
@@ -1115,12 +1582,40 @@ def random_models(rng):
 
 
 VARIANTS = ["float", "view", "stride", "fortran", "int", "list", "neg"]
+VARIANTS_X = VARIANTS + ["readonly", "tuple"]       # read-only arrays (any in-place write raises), tuples of tuples
+PVARS = ["array", "array", "list", "tuple", "readonly", "0d"]
+GVARS = ["float", "float", "int", "list", "readonly", "scalar"]
+MISC = ["sort_points_to_form_continuous_line", "calculate_alpha", "conditional_sample", "Distribution.draw_sample",
+        "DependenceFunction.__call__", "cell_averaged_joint_pdf"]
+
+
+def _misc_op(rng, m, have_hdc):
+    which = str(rng.choice(MISC if have_hdc else MISC[:-1]))
+    op = {"op": "misc", "which": which}
+    if which == "sort_points_to_form_continuous_line":
+        op.update(n=int(rng.choice([2, 12, 40])), rs=int(rng.integers(0, 1000)), opt=bool(rng.integers(0, 2)),
+                  variant=str(rng.choice(["float", "readonly"])))
+    elif which == "calculate_alpha":
+        op.update(dur=float(rng.choice([1, 3, 6])), rp=float(rng.choice([1, 25, 50])))
+    elif which == "cell_averaged_joint_pdf":
+        op.update(n=int(rng.choice([5, 12])))
+    else:
+        op.update(m=m, dim=int(rng.integers(0, 3)), n=int(rng.choice([1, 10, 100])), rs=int(rng.integers(0, 1000)))
+        if which == "conditional_sample":
+            op["dim"] = int(rng.integers(0, 2))
+            op["n"] = int(rng.choice([10, 200]))
+        if which == "DependenceFunction.__call__":
+            op["variant"] = str(rng.choice(["float", "view", "int", "list", "readonly"]))
+            op["n"] = int(rng.choice([7, 40]))
+    return op
 
 
 def random_ops(rng, specs, length, allow_cdf):
+    """`allow_cdf` also enables the other slow options (default grids of the highest density contour)"""
     ops = []
     specs = list(specs)
     n_contours = 0
+    n_hdc = 0
     fitted = set()
     for _ in range(length):
         nm = len(specs)
@@ -1128,49 +1623,69 @@ def random_ops(rng, specs, length, allow_cdf):
         sp = specs[m]
         is_tm = sp["kind"] == "getter_tm"
         nd = len(sp["dims"]) if sp["kind"] == "custom" else 2
-        var = str(rng.choice(VARIANTS))
+        var = str(rng.choice(VARIANTS_X))
         r = rng.uniform()
         if is_tm:
-            c = rng.integers(0, 5)
+            c = rng.integers(0, 10)
             if c == 4:
                 # Monte-Carlo conditional cdf / icdf of the transformed model on caller-owned float64 arrays
                 ops.append({"op": "tcond", "m": m, "which": str(rng.choice(["icdf", "cdf"])), "seeded": bool(rng.integers(0, 2))})
             elif c == 0:
-                ops.append({"op": "pdf", "m": m, "variant": str(rng.choice(["float", "view", "fortran", "stride"])), "rows": 20})
+                ops.append({"op": "pdf", "m": m, "variant": str(rng.choice(["float", "view", "fortran", "stride", "readonly"])), "rows": 20})
             elif c == 1:
-                ops.append({"op": "sample", "m": m, "n": 50, "rs": 1})
+                ops.append({"op": "sample", "m": m, "n": 50, "rs": int(rng.integers(0, 1000)), "seeded": bool(rng.integers(0, 3))})
             elif c == 2:
                 ops.append({"op": "fit", "m": m, "variant": "float", "fd": bool(rng.integers(0, 2))})
                 fitted.add(m)
+            elif c == 5:
+                ops.append({"op": "tm", "m": m, "which": "empirical_cdf", "rows": int(rng.choice([1, 12])),
+                            "variant": str(rng.choice(["float", "view", "list", "readonly", "fortran"]))})
+            elif c == 6:
+                ops.append({"op": "tm", "m": m, "which": "marginal_icdf", "rows": int(rng.choice([3, 9])), "dim": int(rng.integers(0, 2)),
+                            "rs": int(rng.integers(0, 1000)), "pvar": str(rng.choice(["array", "list", "readonly", "tuple"]))})
+            elif c == 7:
+                ops.append({"op": "misc", "which": "conditional_sample", "m": m, "dim": int(rng.integers(0, 2)),
+                            "n": int(rng.choice([10, 200])), "rs": int(rng.integers(0, 1000))})
+            elif c == 8 and allow_cdf and rng.integers(0, 3) == 0:
+                ops.append({"op": "tm", "m": m, "which": "cdf", "rows": 1, "variant": str(rng.choice(["float", "list", "readonly"]))})
             else:
                 ops.append({"op": "pdf", "m": m, "variant": "float", "rows": 5})
             continue
-        if r < 0.12:
+        if r < 0.09:
             ops.append({"op": "pdf", "m": m, "variant": var, "rows": int(rng.choice([1, 7, 40]))})
-        elif r < 0.16 and allow_cdf and sp["kind"] == "getter" and sp["k"] in (2, 3):
-            ops.append({"op": "cdf", "m": m, "variant": str(rng.choice(["float", "int", "list"])), "rows": 1})
-        elif r < 0.22:
-            ops.append({"op": "icdf", "m": m, "dim": int(rng.integers(0, 3)), "rows": int(rng.choice([5, 30]))})
-        elif r < 0.28:
-            ops.append({"op": "cond", "m": m, "dim": int(rng.integers(0, 3)), "variant": var, "rows": int(rng.choice([5, 30]))})
-        elif r < 0.36:
+        elif r < 0.13 and allow_cdf and ((sp["kind"] == "getter" and sp["k"] in (2, 3)) or (sp["kind"] == "custom" and nd == 2 and rng.integers(0, 3) == 0)):
+            ops.append({"op": "cdf", "m": m, "variant": str(rng.choice(["float", "int", "list", "readonly", "tuple"])), "rows": 1})
+        elif r < 0.19:
+            ops.append({"op": "icdf", "m": m, "dim": int(rng.integers(0, 3)), "rows": int(rng.choice([5, 30])),
+                        "pvar": str(rng.choice(PVARS)), "gvar": str(rng.choice(GVARS))})
+        elif r < 0.24:
+            ops.append({"op": "cond", "m": m, "dim": int(rng.integers(0, 3)), "variant": var, "rows": int(rng.choice([5, 30])),
+                        "pvar": str(rng.choice(["array", "readonly"]))})
+        elif r < 0.31:
             ops.append({"op": "marginal", "m": m, "which": str(rng.choice(["pdf", "cdf", "icdf"])), "dim": int(rng.integers(0, 3)),
-                        "variant": str(rng.choice(["float", "view", "stride", "int", "list", "neg"])), "rows": int(rng.choice([6, 25]))})
-        elif r < 0.42:
+                        "variant": str(rng.choice(["float", "view", "stride", "int", "list", "neg", "readonly", "tuple"])),
+                        "rows": int(rng.choice([6, 25])), "pvar": str(rng.choice(PVARS))})
+        elif r < 0.36:
             ops.append({"op": "sample", "m": m, "n": int(rng.choice([1, 10, 200])), "rs": int(rng.integers(0, 1000))})
-        elif r < 0.58:
+        elif r < 0.44:
+            ops.append(_misc_op(rng, m, n_hdc > 0))
+        elif r < 0.59:
             kinds = ["IFORMContour", "ISORMContour", "HighestDensityContour"]
             if nd == 2:
                 kinds += ["DirectSamplingContour", "AndContour", "OrContour"]
+            grids = ["explicit", "explicit", "array", "scalar", "default_limits"]
+            if allow_cdf and nd == 2:
+                grids += ["default", "default_deltas"]
             ops.append({"op": "contour", "m": m, "kind": str(rng.choice(kinds)), "alpha": float(rng.choice([0.02, 0.05, 0.1])),
                         "n_points": int(rng.choice([12, 36])), "deg_step": int(rng.choice([6, 10, 15])),
-                        "variant": str(rng.choice(["float", "view", "stride", "fortran"])), "rows": int(rng.choice([200, 300])),
-                        "lo": float(rng.choice([0.0, 0.05]))})
+                        "variant": str(rng.choice(["float", "view", "stride", "fortran", "readonly"])), "rows": int(rng.choice([200, 300])),
+                        "lo": float(rng.choice([0.0, 0.05])), "grid": str(rng.choice(grids))})
             n_contours += 1
-        elif r < 0.64 and n_contours:
+            n_hdc += ops[-1]["kind"] == "HighestDensityContour"
+        elif r < 0.65 and n_contours:
             ops.append({"op": "design", "c": int(rng.integers(0, 3)), "steps": str(rng.choice(["none", "int", "array", "list"])),
                         "swap": bool(rng.integers(0, 2))})
-        elif r < 0.69 and n_contours:
+        elif r < 0.70 and n_contours:
             ops.append({"op": "save", "c": int(rng.integers(0, 3)), "sem": bool(rng.integers(0, 2))})
         elif r < 0.83:
             fns = ["plot_dependence_functions", "plot_marginal_quantiles"]
@@ -1180,11 +1695,14 @@ def random_ops(rng, specs, length, allow_cdf):
                 fns += ["plot_2D_contour", "plot_2D_contour"]
             if m in fitted:
                 fns += ["plot_histograms_of_interval_distributions"] * 2
+            dcs = [False, True, "array"]
             ops.append({"op": "plot", "fn": str(rng.choice(fns)), "m": m, "c": int(rng.integers(0, 3)), "sem": bool(rng.integers(0, 2)),
-                        "variant": str(rng.choice(["float", "view", "stride", "fortran", "list"])), "rows": int(rng.choice([60, 150])),
-                        "swap": bool(rng.integers(0, 2)), "dc": bool(rng.integers(0, 2))})
+                        "variant": str(rng.choice(["float", "view", "stride", "fortran", "list", "readonly"])), "rows": int(rng.choice([60, 150])),
+                        "swap": bool(rng.integers(0, 2)), "dc": dcs[int(rng.integers(0, 3))], "ax": bool(rng.integers(0, 2)),
+                        "iso": [None, None, "array", "list", "limits"][int(rng.integers(0, 5))],
+                        "pr": [None, None, "dict", "empty"][int(rng.integers(0, 4))], "nopdf": bool(rng.integers(0, 3) == 0)})
         elif r < 0.95:
-            ops.append({"op": "fit", "m": m, "variant": str(rng.choice(["float", "list", "fortran"])), "fd": bool(rng.integers(0, 2))})
+            ops.append({"op": "fit", "m": m, "variant": str(rng.choice(["float", "list", "fortran", "readonly"])), "fd": bool(rng.integers(0, 2))})
             fitted.add(m)
         elif nm < 4:
             spec = {"kind": "getter", "k": int(rng.integers(0, 6)), "jit": 1.0, "n": 300, "nfit": 400,
@@ -1219,6 +1737,74 @@ def corpus_cases():
         {"op": "design", "c": 0, "steps": "array", "swap": False},
         {"op": "save", "c": 0, "sem": True},
         {"op": "plot", "fn": "plot_2D_contour", "m": 0, "c": 0, "sem": True, "variant": "stride", "rows": 60, "swap": True, "dc": True},
+    ]})
+    # --- TransformedModel: every evaluation entry point, seeded ones repeat-checked
+    out.append({"models": [dict(g(4), kind="getter_tm"), g(5)], "ops": [
+        {"op": "sample", "m": 0, "n": 50, "rs": 7, "seeded": True},
+        {"op": "tm", "m": 0, "which": "empirical_cdf", "rows": 12, "variant": "readonly"},
+        {"op": "tm", "m": 0, "which": "marginal_icdf", "rows": 5, "dim": 1, "rs": 3, "pvar": "list"},
+        {"op": "tm", "m": 0, "which": "cdf", "rows": 1, "variant": "float"},
+        {"op": "misc", "which": "conditional_sample", "m": 0, "dim": 1, "n": 200, "rs": 11},
+        {"op": "fit", "m": 1, "variant": "readonly", "fd": True},
+        {"op": "pdf", "m": 0, "variant": "readonly", "rows": 20},
+    ]})
+    # --- the distribution families and slicers the getters do not use, as templates of conditional distributions
+    c3 = {"kind": "custom", "n_int": 4, "slicer": "number", "n": 300, "nfit": 500, "sseed": 21, "dims": [
+        {"family": "ScipyGamma", "cond": None, "params": {"a": 2.5, "loc": 0.0, "scale": 1.2}},
+        {"family": "Normal", "cond": 0, "deps": {"mu": ["lin2", [3.0, 1.2]], "sigma": ["exp3", [0.3, 0.5, -0.2]]}},
+        {"family": "VonMises", "cond": None, "params": {"kappa": 1.5, "mu": 1.0}}]}
+    c2 = {"kind": "custom", "n_int": 4, "slicer": "width", "width": 0.8, "n": 300, "nfit": 500, "sseed": 22, "dims": [
+        {"family": "GeneralizedGamma", "cond": None, "params": {"m": 2.0, "c": 1.3, "lambda_": 0.8}},
+        {"family": "LogNormalNormFit", "cond": 0, "deps": {"mu_norm": ["power3", [2.0, 1.0, 0.8]], "sigma_norm": ["exp3", [0.2, 0.6, -0.2]]}}]}
+    c2b = {"kind": "custom", "n_int": 4, "slicer": "points", "ppi": 120, "n": 300, "nfit": 500, "sseed": 23, "dims": [
+        {"family": "ExponentiatedWeibull", "cond": None, "params": {"alpha": 1.2, "beta": 1.1, "delta": 2.5}},
+        {"family": "ScipyGamma", "cond": 0, "fixed": {"loc": 0.0}, "deps": {"a": ["lin2", [2.0, 0.3]], "scale": ["exp3", [0.5, 0.5, -0.1]]}}]}
+    out.append({"models": [c3, c2], "ops": [
+        {"op": "pdf", "m": 0, "variant": "readonly", "rows": 40},
+        {"op": "icdf", "m": 0, "dim": 1, "rows": 30, "pvar": "readonly", "gvar": "int"},
+        {"op": "fit", "m": 0, "variant": "float", "fd": False},
+        {"op": "plot", "fn": "plot_histograms_of_interval_distributions", "m": 0, "c": 0, "sem": False, "variant": "float", "rows": 60,
+         "swap": False, "dc": False, "nopdf": True},
+        {"op": "pdf", "m": 1, "variant": "tuple", "rows": 7},
+        {"op": "fit", "m": 1, "variant": "list", "fd": False},
+        {"op": "cdf", "m": 0, "variant": "float", "rows": 1},
+        {"op": "misc", "which": "Distribution.draw_sample", "m": 1, "dim": 1, "n": 10, "rs": 4},
+    ]})
+    out.append({"models": [c2b, c2], "ops": [
+        {"op": "icdf", "m": 0, "dim": 1, "rows": 5, "pvar": "list", "gvar": "readonly"},
+        {"op": "fit", "m": 0, "variant": "fortran", "fd": False},
+        {"op": "misc", "which": "DependenceFunction.__call__", "m": 0, "dim": 1, "n": 40, "variant": "readonly"},
+        {"op": "contour", "m": 1, "kind": "IFORMContour", "alpha": 0.05, "n_points": 12, "deg_step": 10, "variant": "float", "rows": 200, "lo": 0.0},
+        {"op": "cdf", "m": 1, "variant": "list", "rows": 1},
+        {"op": "plot", "fn": "plot_marginal_quantiles", "m": 0, "c": 0, "sem": False, "variant": "readonly", "rows": 60, "swap": False,
+         "dc": False, "ax": True},
+    ]})
+    # --- array-valued options of contours and plots; entry points outside the model classes
+    out.append({"models": [g(0), g(3)], "ops": [
+        {"op": "contour", "m": 0, "kind": "HighestDensityContour", "alpha": 0.1, "n_points": 12, "deg_step": 10, "variant": "float", "rows": 200,
+         "lo": 0.05, "grid": "array"},
+        {"op": "misc", "which": "cell_averaged_joint_pdf", "n": 12},
+        {"op": "plot", "fn": "plot_2D_contour", "m": 0, "c": 0, "sem": True, "variant": "readonly", "rows": 60, "swap": True, "dc": "array", "ax": True},
+        {"op": "plot", "fn": "plot_2D_isodensity", "m": 0, "c": 0, "sem": True, "variant": "float", "rows": 60, "swap": False, "dc": False,
+         "iso": "array", "ax": True},
+        {"op": "plot", "fn": "plot_dependence_functions", "m": 1, "c": 0, "sem": True, "variant": "float", "rows": 60, "swap": False, "dc": False,
+         "pr": "dict", "ax": True},
+        {"op": "plot", "fn": "plot_dependence_functions", "m": 1, "c": 0, "sem": False, "variant": "float", "rows": 60, "swap": False, "dc": False},
+        {"op": "contour", "m": 1, "kind": "HighestDensityContour", "alpha": 0.1, "n_points": 12, "deg_step": 10, "variant": "float", "rows": 200,
+         "lo": 0.0, "grid": "default"},
+        {"op": "misc", "which": "sort_points_to_form_continuous_line", "n": 40, "rs": 5, "opt": True, "variant": "readonly"},
+    ]})
+    out.append({"models": [g(1), g(2)], "ops": [
+        {"op": "contour", "m": 0, "kind": "HighestDensityContour", "alpha": 0.1, "n_points": 12, "deg_step": 10, "variant": "float", "rows": 200,
+         "lo": 0.0, "grid": "scalar"},
+        {"op": "contour", "m": 1, "kind": "HighestDensityContour", "alpha": 0.1, "n_points": 12, "deg_step": 10, "variant": "float", "rows": 200,
+         "lo": 0.0, "grid": "default_limits"},
+        {"op": "plot", "fn": "plot_2D_isodensity", "m": 1, "c": 0, "sem": False, "variant": "list", "rows": 60, "swap": True, "dc": False, "iso": "list"},
+        {"op": "misc", "which": "calculate_alpha", "dur": 3.0, "rp": 50.0},
+        {"op": "misc", "which": "conditional_sample", "m": 1, "dim": 1, "n": 200, "rs": 2},
+        {"op": "misc", "which": "Distribution.draw_sample", "m": 0, "dim": 0, "n": 100, "rs": 9},
+        {"op": "contour", "m": 0, "kind": "DirectSamplingContour", "alpha": 0.1, "n_points": 12, "deg_step": 10, "variant": "readonly", "rows": 300, "lo": 0.0},
+        {"op": "design", "c": 2, "steps": "array", "swap": False},
     ]})
     for i, c in enumerate(out):
         c.update(seed=0, idx=-1 - i, gen="corpus")
@@ -1284,7 +1870,14 @@ def getter_pair_record(k, rep, do_fit):
     if do_fit:
         # build both models, fit the first on data from a parametrized twin; the second must not change
         try:
+            # the descriptions are hashed BEFORE any model is built from them: constructing a model from the first result
+            # must not reach the second result either
+            hr1_0, hr2_0 = deep_hash(r1), deep_hash(r2)
             m1 = V.GlobalHierarchicalModel(r1[0])
+            if deep_hash(r2) != hr2_0:
+                rec["fail"].append(("other_description_unchanged_by_construction",
+                                    "building a model from one result of %s() changed the result of a second call" % name))
+            rec["ctor_changed_own_description"] = deep_hash(r1) != hr1_0
             m2 = V.GlobalHierarchicalModel(r2[0])
             twin = LiveModel({"kind": "getter", "k": k, "jit": 1.0})
             data = base_sample(twin, 500, 31 + rep)
@@ -1319,12 +1912,16 @@ def slim(case, step=None):
     return c
 
 
+_WALL = {}   # entry -> seconds spent in the first evaluation (reported in the evidence)
+
+
 def judge_steps(ck, recs, answers):
     for rec, ans in zip(recs, answers):
         case, step, op = rec["case"], rec["step"], rec["op"]
         kv = parse_kv(ans)
         entry = rec["entry"]
         ck.count("entry=" + entry)
+        _WALL[entry.split("[")[0]] = _WALL.get(entry.split("[")[0], 0.0) + rec.get("dt", 0.0)
         if rec["exc"]:
             ck.count("raised=" + entry + ":" + rec["exc"].split(":")[0])
         # ---- oracle on the real code
@@ -1335,22 +1932,35 @@ def judge_steps(ck, recs, answers):
                 if not ch:
                     continue
                 if kind == "aux":
+                    # the caller's semantics dict / fit descriptions / par_rename dict (getter by-products the caller holds)
                     if is_fit and nm == rec.get("desc_root"):
                         ck.count("fit_descriptions_filled_in_place")   # declared in the model's footprint of fit
-                    else:
-                        ck.count("aux_changed=" + nm.split(".")[-1] + ":" + entry)
-                    continue
-                if is_fit:
-                    tr = rec["target_root"]
-                    if nm == tr:
                         continue
+                    if is_fit and nm.startswith(rec["target_root"] + "."):
+                        ck.count("aux_changed=" + nm.split(".")[-1] + ":" + entry)   # fit is not an evaluation: reported
+                        continue
+                    # an evaluation (plot, save, ...) that edits a dict/list argument of the caller in place, or a fit
+                    # that reaches the by-products of ANOTHER getter call
+                    pred = "other_model_unchanged_by_fit" if is_fit else "caller_argument_unchanged"
+                elif kind == "global":
+                    pred = "module_state_unchanged"
+                elif is_fit:
+                    tr = rec["target_root"]
+                    if nm == tr or nm == tr + ".descs":
+                        continue   # the description list shares its distribution objects with the model built from it
                     if kind == "contour":
                         # contours keep a reference to their model: allowed to follow a fit of THAT model
                         continue
-                    pred = "other_model_unchanged_by_fit" if kind == "model" else "caller_array_unchanged"
+                    pred = "other_model_unchanged_by_fit" if kind in ("model", "desc") else "caller_array_unchanged"
                 else:
-                    pred = {"model": "model_unchanged", "array": "caller_array_unchanged", "contour": "contour_unchanged"}[kind]
-                bad.append((pred, "%s changed root %s (%s); written objects: %s" % (entry, nm, kind, rec["written_desc"])))
+                    pred = {"model": "model_unchanged", "array": "caller_array_unchanged", "contour": "contour_unchanged",
+                            "desc": "model_description_unchanged"}[kind]
+                bad.append((pred, "%s changed root %s (%s)%s; written objects: %s" % (
+                    entry, nm, kind, " - the second evaluation restored it" if nm in rec.get("undone", []) else "", rec["written_desc"])))
+        if rec.get("readonly_args"):
+            ck.count("ops_with_read_only_caller_array")
+            if rec.get("ro_write"):
+                bad.append(("caller_array_unchanged", "%s tried to write into a read-only array of the caller: %s" % (entry, rec["ro_write"])))
         if rec["det"]:
             ck.count("repeat_checked")
             if rec["det_bad"]:
@@ -1389,19 +1999,21 @@ def judge_steps(ck, recs, answers):
                            "%s wrote objects %s outside its declared footprint (%s) yet no root hash changed" % (entry, kv["off"], rec["written_desc"]))
         if kv["adm"] == "1":
             ck.count("admissible")
+        else:
+            ck.count("outside_footprint=" + entry + ("(oracle failed too)" if bad else ""))
         if is_fit:
             ck.count("fit_written_objects", len(rec["written"]))
             if not rec["written"] and not rec["exc"]:
                 ck.count("fit_wrote_nothing")
             smut, sany = ints(kv["smut"]), ints(kv["sany"])
             for (kind, nm), a, b in zip(rec["roots"], smut, sany):
-                if nm in (rec["target_root"], rec.get("desc_root")) or kind in ("contour", "aux"):
+                if nm in (rec["target_root"], rec.get("desc_root"), rec["target_root"] + ".descs") or kind in ("contour", "aux"):
                     continue
                 ck.count("sep_checked")
                 if a > 0:
-                    if kind == "model":
+                    if kind in ("model", "desc", "global"):
                         ck.fail(sig(entry, "models_share_no_mutable_state"), slim(case, step),
-                                "model %s shares %d mutable objects with the fitted model %s" % (nm, a, rec["target_root"]))
+                                "%s %s shares %d mutable objects with the fitted model %s" % (kind, nm, a, rec["target_root"]))
                     else:
                         ck.count("model_captured_caller_array")
                 elif b > 0:
@@ -1451,6 +2063,10 @@ def judge_getters(ck, recs, answers):
         ck.count("getterpair=" + rec["name"])
         if "fit" in rec:
             ck.count("getterpair_fit=" + rec["fit"])
+        if "ctor_changed_own_description" in rec:
+            ck.count("getterpair_descriptions_hashed_before_construction")
+            if rec["ctor_changed_own_description"]:
+                ck.count("constructor_changed_own_description(reported)")
         for pred, detail in rec["fail"]:
             ck.fail(sig(rec["name"], pred), case, detail)
         kv = parse_kv(ans)
@@ -1485,6 +2101,11 @@ def process(ck, all_records):
             ck.count("seq_len=%d" % len(c["ops"]))
             ck.count("models=" + "+".join(sorted(m["kind"] + str(m.get("k", "")) for m in c["models"])))
             ck.count("ops_executed_without_exception", r["n_ok"])
+            for m in c["models"]:
+                if m["kind"] == "custom":
+                    ck.count("custom_slicer=" + m.get("slicer", "number"))
+                    for d in m["dims"]:
+                        ck.count("custom_family=%s(%s)" % (d["family"], "unconditional" if d["cond"] is None else "template of a conditional"))
             ck.count("max_objects", 0)
             ck.dist["max_objects"] = max(ck.dist.get("max_objects", 0), r["n_objects"])
         elif r["kind"] == "late":
@@ -1509,7 +2130,8 @@ def shrink_failures(ck):
         ops, k = case["ops"], case["failing_step"]
         need = {k}
         op = ops[k]
-        if op["op"] in ("design", "save") or (op["op"] == "plot" and op["fn"] == "plot_2D_contour"):
+        if op["op"] in ("design", "save") or (op["op"] == "plot" and op["fn"] == "plot_2D_contour") or (
+                op["op"] == "misc" and op.get("which") == "cell_averaged_joint_pdf"):
             prev = [j for j in range(k) if ops[j]["op"] == "contour"]
             need.update(prev[-3:])
         if op["op"] == "plot" and op["fn"] == "plot_histograms_of_interval_distributions":
@@ -1559,8 +2181,10 @@ def main(ck):
     n_seq = 2000 if thorough else 120
     max_len = 12 if thorough else 6
     ck.rule = (
-        "corpus sequences (two models from the same getter, fit one between two uses of the other; in-place scenarios), "
-        "then %d random op sequences of length <= %d over 2-3 live models (six predefined getters, TransformedModel, custom 2-D/3-D); "
+        "corpus sequences (two models from the same getter, fit one between two uses of the other; in-place scenarios; every "
+        "TransformedModel entry point; the families/slicers the getters do not use; array-valued options; utility entry points), "
+        "then %d random op sequences of length <= %d over 2-3 live models (six predefined getters, TransformedModel, custom 2-D/3-D "
+        "over all 8 distribution families and 3 slicers); "
         "then getter pairs for each of the six getters; a sequence is non-trivial if it has >= 2 live models and >= 2 ops that "
         "ran without exception; distinct by SHA1 of the case" % (n_seq, max_len)
     )
@@ -1577,6 +2201,13 @@ def main(ck):
         "repeat_identical": "the theorem needs 'the result reads only the reachable sub-store'; that the entry points use no hidden "
                             "global state is observed by evaluating twice (array_equal)",
         "getter_disjointness": "freshness/disjointness of getter results is measured on id()-graphs of actual results",
+        "caller_arguments_and_module_state": "that plot/save/contour functions leave the caller's semantics / par_rename / limits / "
+                                             "levels / design-condition arguments and virocon's module-level state (globals, class "
+                                             "attributes, default argument values) unchanged is observed per executed op (deep hash "
+                                             "before / between / after the two evaluations); the heap theorems cover it only through "
+                                             "the measured footprint",
+        "read_only_probe": "an in-place write that would not change any value is only visible for the ops that were handed a "
+                           "read-only array (numpy raises)",
     }
     cases = corpus_cases() + make_cases(ck.seed, n_seq, max_len, allow_cdf_every=(4 if thorough else 3))
     reps = 12 if thorough else 2
@@ -1606,6 +2237,7 @@ def main(ck):
     if ck.failures:
         shrink_failures(ck)
     ck.extra["exhaustive"] = False
+    ck.extra["seconds_in_first_evaluation_by_entry(top)"] = {k: round(v, 1) for k, v in sorted(_WALL.items(), key=lambda kv: -kv[1])[:8]}
     d = ck.dist
     ck.extra["hypotheses_measured"] = {
         "steps_with_valid_reach_certificates_and_wellformed_store": ck.hyp_checked,
